@@ -252,12 +252,13 @@ class Group:
                 if tbl else "(@nil (nat * list nat))"
             ms = []
             for real, u in zip(reals, universes):
+                # 0 = SQLFluffUserError, m + 1 = the bit mask m over the universe (a plain N list: scope delimiters per element are slow to read)
                 if real is None:
-                    ms.append("None")
+                    ms.append("0")
                 else:
                     have = set(real)
-                    ms.append("Some %d%%N" % sum(1 << i for i, x in enumerate(u) if x in have))
-            lits.append("(%s, %s, [%s])" % (ig, tb, "; ".join(ms)))
+                    ms.append("%d" % (1 + sum(1 << i for i, x in enumerate(u) if x in have)))
+            lits.append("(%s, %s, [%s]%%N)" % (ig, tb, "; ".join(ms)))
         defs = ""
         defs += "Definition g%d_skel : list (nat * text * list text) := %s.\n" % (gi, skel)
         defs += "Definition g%d_qs : list c25_qs :=\n %s.\n" % (gi, qs)
@@ -304,17 +305,17 @@ Definition c25_table (rels : list (list text)) (tb : list (nat * list nat)) : li
 Fixpoint c25_zip {A B} (a : list A) (b : list B) : list (A * B) :=
   match a, b with x :: a', y :: b' => (x, y) :: c25_zip a' b' | _, _ => [] end.
 Definition c25_fcase (skel : list (nat * text * list text)) (rels : list (list text)) (qs : list c25_qs)
-           (c : list (nat * text * option nat) * list (nat * list nat) * list (option N)) : list bool :=
+           (c : list (nat * text * option nat) * list (nat * list nat) * list N) : list bool :=
   let '(igs, tb, masks) := c in
   let root := c25_build skel igs (length skel) 0 in
   let tbl := c25_table rels tb in
   if negb (Nat.eqb (length qs) (length masks)) then [] else
-  map (fun qm : c25_qs * option N =>
+  map (fun qm : c25_qs * N =>
          let '(cwd, path, ine, ign, wp, exts, cnef, u, m) := qm in
          c25_ok (paths_from_path_g (tbl_matches tbl) cwd root path ine ign wp exts cnef) cwd
-                (match m with Some m => Some (c25_select m u) | None => None end)) (c25_zip qs masks).
+                (if N.eqb m 0 then None else Some (c25_select (N.pred m) u))) (c25_zip qs masks).
 Definition c25_fshow (skel : list (nat * text * list text)) (rels : list (list text)) (qs : list c25_qs)
-           (c : list (nat * text * option nat) * list (nat * list nat) * list (option N)) : list (res (list text)) :=
+           (c : list (nat * text * option nat) * list (nat * list nat) * list N) : list (res (list text)) :=
   let '(igs, tb, masks) := c in
   let root := c25_build skel igs (length skel) 0 in
   let tbl := c25_table rels tb in
@@ -462,6 +463,7 @@ class Queue:
         self.groups, self.split = {}, {}
         self.ncases = 0
         self.done = 0
+        self.busy = None    # another thread running one coqc (the helper correspondence)
 
     def add(self, scan, queries, meta):
         if not self.coq_ok:
@@ -474,9 +476,9 @@ class Queue:
         g.add(scan, queries, meta)
         self.ncases += 1
 
-    def flush(self, force=True):
+    def flush(self, force=True, threshold=2500):
         """start the model evaluation of the queued cases in the background (the real calls go on meanwhile); force=True also waits"""
-        if self.groups and (force or self.ncases >= 2500):
+        if self.groups and (force or self.ncases >= threshold):
             self.wait()
             import threading
             groups = list(self.groups.values())
@@ -517,8 +519,9 @@ class Queue:
                         canary = cg
         # distribute the groups over 4 coqc runs of similar size
         order = sorted(groups, key=lambda g: -len(g.cases) * len(g.statics))
-        bins = [[] for _ in range(4)]
-        load = [0] * 4
+        nb = 3 if (self.busy is not None and self.busy.is_alive()) else 4   # at most 4 coqc processes at a time
+        bins = [[] for _ in range(nb)]
+        load = [0] * nb
         for g in order:
             k = load.index(min(load))
             bins[k].append(g)
@@ -736,7 +739,6 @@ def helper_correspondence(ctx, coq_ok):
             rows.append("(%s, %s, %s, %s, %s, %s, %s, %s, %s)" % (
                 it.t(s), it.t(posixpath.normpath(s)), it.t(posixpath.abspath(s)), it.t(posixpath.join("x/", s)), it.t(posixpath.join(s, "y")),
                 "None" if rel is None else "Some %s" % it.tl([] if rel == ["."] else rel), coq.cbool(posixpath.isabs(s)), it.tl(parts), it.tl(res_parts)))
-            ctx.case(None, bucket="posixpath-helper")
     finally:
         os.getcwd = real_getcwd
     body = """
@@ -752,6 +754,7 @@ Definition c25_h (r : text * text * text * text * text * option (list text) * bo
     if ["".join(chr(c) for c in t) for t in vals[0]] != list(discovery.ignore_file_loaders.keys()):
         ctx.broken_obligation("constant Model.Discovery.loader_names vs discovery.ignore_file_loaders", repr(list(discovery.ignore_file_loaders)))
     verdicts = [b for v in vals[1:] for b in v]
+    ctx.coverage_extra["posixpath_helper_strings"] = len(strs)
     if len(verdicts) != len(strs):
         raise coq.CoqError("helper result length mismatch")
     for sx, ok in zip(strs, verdicts):
@@ -765,12 +768,32 @@ Definition c25_h (r : text * text * text * text * text * option (list text) * bo
 def run(ctx, coq_ok):
     import logging
     logging.getLogger("sqlfluff.linter").setLevel(logging.ERROR)   # the "exact file path ... was ignored" warning is not part of the property
-    helper_correspondence(ctx, coq_ok)
+    timing = ctx.coverage_extra.setdefault("phase_s", {})
+    t_last = [coq.now()]
+
+    def lap(name):
+        timing[name] = round(coq.now() - t_last[0], 1)
+        t_last[0] = coq.now()
+
+    lap("before_run(build+audit)")
+    timing["before_run(build+audit)"] = round(ctx.elapsed(), 1)
+    import threading
+    herr = []
+
+    def hjob():
+        try:
+            helper_correspondence(ctx, coq_ok)
+        except BaseException as e:
+            herr.append(e)
+
+    hthread = threading.Thread(target=hjob)
+    hthread.start()     # one coqc run, in the background while the real calls of section A are made
     quick = ctx.tier == "quick"
     tmp = os.path.realpath(tempfile.mkdtemp(prefix="verif-c25-", dir=os.environ.get("TMPDIR") or "/var/tmp"))
     assert not tmp.startswith("/repo") and not tmp.startswith("/verif")
     serial = [0]
     queue = Queue(ctx, coq_ok)
+    queue.busy = hthread
 
     def fresh(shape, files=None):
         serial[0] += 1
@@ -801,6 +824,8 @@ def run(ctx, coq_ok):
         for ig in one_pattern_ignores([R, R + "/sub", R + "/oth"]):
             r.run_case("full2", shape, ig, grid_queries([R + "/sub", R + "/sub/sub"], [R + "/sub"], wps=(R, R + "/oth", R + "/sub/sub", OUTSIDE, None)))
         shutil.rmtree(r.top)
+        lap("A_full2")
+        queue.flush(force=False, threshold=0)   # the bulk of the quick tier: evaluate it while the rest runs
 
         # ---- B. depth 3
         shape = full_shape(3)
@@ -816,6 +841,7 @@ def run(ctx, coq_ok):
                 r.run_case("full3", shape, ig, grid_queries(dirs, [R, R + "/sub"]))
                 queue.flush(force=False)
         shutil.rmtree(r.top)
+        lap("B_full3")
 
         # ---- C. every sub-shape of the full tree (depth 2 quick, depth 3 thorough), one ignore file
         for si, shape in enumerate(all_shapes(2) if quick else all_shapes(3)):
@@ -831,11 +857,13 @@ def run(ctx, coq_ok):
             queue.flush(force=False)
             shutil.rmtree(r.top)
 
+        lap("C_shapes")
         # ---- D. seeded random trees, ignore files, flags
         for i in range(12 if quick else 300):
             random_case(ctx, fresh, i)
             queue.flush(force=False)
 
+        lap("D_random")
         # ---- E. malformed stream
         shape = full_shape(1)
         r = fresh(shape, files={R: ["a.sql", "B.SQL", "c.txt", "noext"], R + "/sub": ["a.sql", "x.Sql"], R + "/oth": []})
@@ -854,10 +882,17 @@ def run(ctx, coq_ok):
                    {R: {".sqlfluff": None, "pyproject.toml": ["b.sql", "sub/"]}, R + "/sub": {"pyproject.toml": None, ".sqlfluff": "x.Sql"}}]:
             r.run_case("malformed", shape, ig, [dict(q) for q in qs], files="mixed-case extensions")
         shutil.rmtree(r.top)
+        lap("E_malformed")
         queue.flush()
+        lap("final_model_wait")
     finally:
+        hthread.join()
         shutil.rmtree(tmp, ignore_errors=True)
-    ctx.coverage_extra["real_paths_from_path_calls"] = ctx.evaluations - ctx.dist.get("posixpath-helper", 0)
+    if herr:
+        raise herr[0]
+    for _ in range(ctx.coverage_extra.get("posixpath_helper_strings", 0)):
+        ctx.case(None, bucket="posixpath-helper")
+    ctx.coverage_extra["real_paths_from_path_calls"] = ctx.evaluations
 
 
 def random_case(ctx, fresh, i):
